@@ -230,6 +230,9 @@ fn items01(tier: Tier) -> Vec<Item01> {
             }
         }
     }
+    // a 32 768-fold sub-filter grid with chunks of tens of thousands of frames
+    v.push(Item01::Sinc { window: WindowFunction::BlackmanHarris2, l: 64, cc: true, interp: Interp::Linear, os: 32768 });
+    v.push(Item01::Sinc { window: WindowFunction::BlackmanHarris2, l: 64, cc: true, interp: Interp::Cubic, os: 32768 });
     for (a, b) in [(44100usize, 48000usize), (48000, 44100), (48000, 96000), (96000, 48000), (44100, 192000), (192000, 44100), (8000, 48000), (48000, 8000), (3, 2), (2, 3), (7, 5), (5, 7), (1, 1)] {
         v.push(Item01::Fft { a, b });
     }
@@ -252,6 +255,7 @@ fn c01_unit<T: Flt>(acc: &mut Acc, cfg: &Cfg, edge: f64, beta_of: &dyn Fn(f64) -
 fn c01_unit_d<T: Flt>(acc: &mut Acc, cfg: &Cfg, edge: f64, beta_of: &dyn Fn(f64) -> f64, amp_tol: f64, tones: &[f64], journal: Option<&JournalFile>, meta: Value, dance: bool) -> Result<(), String> {
     let mut u = Unit::<T>::new(cfg)?;
     u.dance = dance;
+    u.fit_late = cfg.chunk >= 50_000;
     u.generous = meta["generous_input"] == true;
     let a = 0.8;
     // "to single precision": measured f32 rounding noise peaks at 2^-19.5 of the amplitude (256 taps)
@@ -375,13 +379,21 @@ impl Check for C01 {
                     if !q {
                         variants.push((Kind::SI, 37, 1.5));
                     }
+                    if os >= 32768 {
+                        // chunks of 70 000 / 80 000 frames on a 32 768-fold grid: positions late in
+                        // a chunk exceed 2^31 sub-filter steps (fitted at the end of the output)
+                        variants = vec![(Kind::SI, 70_000, 1.0), (Kind::SO, 80_000, 1.0)];
+                    }
                     for (kind, chunk, max_rel) in variants {
                         let mut cfg = sinc_cfg(kind, ratio, chunk, l, os, interp, window, f_cutoff);
                         cfg.max_rel = max_rel;
                         c01_unit::<f64>(&mut acc, &cfg, edge, &beta, amp_tol(window), &tones, journal, meta.clone())?;
-                        if !(q && kind == Kind::SO) {
+                        if !(q && kind == Kind::SO) && os < 32768 {
                             c01_unit::<f32>(&mut acc, &cfg, edge, &beta, amp_tol(window), &tones, journal, meta.clone())?;
                         }
+                    }
+                    if os >= 32768 {
+                        continue;
                     }
                     // two channels carrying different signals (channel 0 is fitted): whatever the
                     // channels share inside one call shows as the other channel's tone
